@@ -36,6 +36,8 @@ HIER = {
     "diamond": [("A", ["StateMachine"]), ("B", ["A"]), ("C", ["A"]), ("D", ["B", "C"])],
     "mixin": [("A", ["StateMachine"]), ("M", ["StateMachine"]), ("D", ["M", "A"])],
     "auto": [("A", ["AutonomousStateMachine"]), ("B", ["A"])],
+    # a plain helper class (no StateMachine) listed first: its ordinary methods hide states of the same name
+    "plainmixin": [("A", ["StateMachine"]), ("M", ["object"]), ("D", ["M", "A"])],
 }
 
 
@@ -111,7 +113,7 @@ def effective(case):
 
 _I = st.integers
 _MEMBER = st.tuples(_I(0, 5), _I(0, 9), _I(0, 7), _I(0, 15), _I(0, 2), _I(0, 3))
-_CASE = st.tuples(_I(0, 5), st.lists(st.lists(_MEMBER, max_size=3), min_size=4, max_size=4), _I(0, 15), _I(0, 120), _I(0, 13), _I(0, 2))
+_CASE = st.tuples(_I(0, 6), st.lists(st.lists(_MEMBER, max_size=3), min_size=4, max_size=4), _I(0, 15), _I(0, 120), _I(0, 13), _I(0, 2))
 NAMES = ["s0", "s1", "s2", "s3", "s4", "drive"]
 DOCS = [None, "first doc", "Second line of docs.", None]
 
@@ -130,6 +132,8 @@ def decode(code, forbidden):
                 continue
             seen.add(n)
             kind = ["state", "state", "state", "state", "timed", "timed", "timed", "default", "plain", "state"][kind_c]
+            if hier == "plainmixin" and cname == "M":
+                kind = "plain"  # states cannot live outside a StateMachine (that is the 'outside' defect)
             m = {"n": n, "kind": kind}
             if kind != "plain":
                 m["sig"] = SIGS[sig_c]
